@@ -35,11 +35,17 @@ impl<R> RecognizerBridge<R> {
     }
 }
 
-struct SubRecognizerBridge<'a, R>(&'a mut R);
+/// The flag is set for the writer of the value of an attribute: an absent value there is an attribute
+/// without a body (which produces no event), as it is when the same attribute is parsed from text.
+struct SubRecognizerBridge<'a, R>(&'a mut R, bool);
 
 impl<'a, R> SubRecognizerBridge<'a, R> {
     fn new(rec: &'a mut R) -> Self {
-        SubRecognizerBridge(rec)
+        SubRecognizerBridge(rec, false)
+    }
+
+    fn new_attr_value(rec: &'a mut R) -> Self {
+        SubRecognizerBridge(rec, true)
     }
 }
 
@@ -54,7 +60,7 @@ impl<R: Recognizer> RecognizerBridge<R> {
 
 impl<'a, R: Recognizer> SubRecognizerBridge<'a, R> {
     fn feed_single(self, event: ReadEvent<'_>) -> Result<(), ReadError> {
-        let SubRecognizerBridge(rec) = self;
+        let SubRecognizerBridge(rec, _) = self;
         if let Some(Err(e)) = rec.feed_event(event) {
             Err(e)
         } else {
@@ -121,7 +127,11 @@ impl<'a, R: Recognizer> PrimitiveWriter for SubRecognizerBridge<'a, R> {
     type Error = ReadError;
 
     fn write_extant(self) -> Result<Self::Repr, Self::Error> {
-        self.feed_single(ReadEvent::Extant)
+        if self.1 {
+            Ok(())
+        } else {
+            self.feed_single(ReadEvent::Extant)
+        }
     }
 
     fn write_i32(self, value: i32) -> Result<Self::Repr, Self::Error> {
@@ -192,7 +202,7 @@ impl<R: Recognizer> HeaderWriter for RecognizerBridge<R> {
         if let Some(Err(e)) = rec.feed_event(ReadEvent::StartAttribute(name)) {
             return Err(e);
         }
-        let delegate = SubRecognizerBridge::new(rec);
+        let delegate = SubRecognizerBridge::new_attr_value(rec);
         value.write_with(delegate)?;
         match rec.feed_event(ReadEvent::EndAttribute) {
             Some(Err(e)) => Err(e),
@@ -213,7 +223,7 @@ impl<R: Recognizer> HeaderWriter for RecognizerBridge<R> {
         if let Some(Err(e)) = rec.feed_event(ReadEvent::StartAttribute(Cow::Owned(name.into()))) {
             return Err(e);
         }
-        let delegate = SubRecognizerBridge::new(rec);
+        let delegate = SubRecognizerBridge::new_attr_value(rec);
         value.write_into(delegate)?;
         match rec.feed_event(ReadEvent::EndAttribute) {
             Some(Err(e)) => Err(e),
@@ -305,7 +315,7 @@ impl<'a, R: Recognizer> StructuralWriter for SubRecognizerBridge<'a, R> {
     type Body = Self;
 
     fn record(self, _num_attrs: usize) -> Result<Self::Header, Self::Error> {
-        Ok(self)
+        Ok(SubRecognizerBridge::new(self.0))
     }
 }
 
@@ -319,11 +329,11 @@ impl<'a, R: Recognizer> HeaderWriter for SubRecognizerBridge<'a, R> {
         name: Cow<'_, str>,
         value: &V,
     ) -> Result<Self, Self::Error> {
-        let SubRecognizerBridge(rec) = &mut self;
+        let SubRecognizerBridge(rec, _) = &mut self;
         if let Some(Err(e)) = rec.feed_event(ReadEvent::StartAttribute(name)) {
             return Err(e);
         }
-        let delegate = SubRecognizerBridge::new(*rec);
+        let delegate = SubRecognizerBridge::new_attr_value(*rec);
         value.write_with(delegate)?;
         match rec.feed_event(ReadEvent::EndAttribute) {
             Some(Err(e)) => Err(e),
@@ -340,11 +350,11 @@ impl<'a, R: Recognizer> HeaderWriter for SubRecognizerBridge<'a, R> {
         name: L,
         value: V,
     ) -> Result<Self, Self::Error> {
-        let SubRecognizerBridge(rec) = &mut self;
+        let SubRecognizerBridge(rec, _) = &mut self;
         if let Some(Err(e)) = rec.feed_event(ReadEvent::StartAttribute(Cow::Owned(name.into()))) {
             return Err(e);
         }
-        let delegate = SubRecognizerBridge::new(*rec);
+        let delegate = SubRecognizerBridge::new_attr_value(*rec);
         value.write_into(delegate)?;
         match rec.feed_event(ReadEvent::EndAttribute) {
             Some(Err(e)) => Err(e),
@@ -361,7 +371,7 @@ impl<'a, R: Recognizer> HeaderWriter for SubRecognizerBridge<'a, R> {
         _kind: RecordBodyKind,
         _num_items: usize,
     ) -> Result<Self::Body, Self::Error> {
-        let SubRecognizerBridge(rec) = &mut self;
+        let SubRecognizerBridge(rec, _) = &mut self;
         match rec.feed_event(ReadEvent::StartBody) {
             Some(Err(e)) => Err(e),
             _ => Ok(self),
@@ -374,7 +384,7 @@ impl<'a, R: Recognizer> BodyWriter for SubRecognizerBridge<'a, R> {
     type Error = ReadError;
 
     fn write_value<V: StructuralWritable>(mut self, value: &V) -> Result<Self, Self::Error> {
-        let SubRecognizerBridge(rec) = &mut self;
+        let SubRecognizerBridge(rec, _) = &mut self;
         let delegate = SubRecognizerBridge::new(*rec);
         value.write_with(delegate)?;
         Ok(self)
@@ -385,7 +395,7 @@ impl<'a, R: Recognizer> BodyWriter for SubRecognizerBridge<'a, R> {
         key: &K,
         value: &V,
     ) -> Result<Self, Self::Error> {
-        let SubRecognizerBridge(rec) = &mut self;
+        let SubRecognizerBridge(rec, _) = &mut self;
         let delegate = SubRecognizerBridge::new(*rec);
         key.write_with(delegate)?;
         if let Some(Err(e)) = rec.feed_event(ReadEvent::Slot) {
@@ -397,7 +407,7 @@ impl<'a, R: Recognizer> BodyWriter for SubRecognizerBridge<'a, R> {
     }
 
     fn write_value_into<V: StructuralWritable>(mut self, value: V) -> Result<Self, Self::Error> {
-        let SubRecognizerBridge(rec) = &mut self;
+        let SubRecognizerBridge(rec, _) = &mut self;
         let delegate = SubRecognizerBridge::new(*rec);
         value.write_into(delegate)?;
         Ok(self)
@@ -408,7 +418,7 @@ impl<'a, R: Recognizer> BodyWriter for SubRecognizerBridge<'a, R> {
         key: K,
         value: V,
     ) -> Result<Self, Self::Error> {
-        let SubRecognizerBridge(rec) = &mut self;
+        let SubRecognizerBridge(rec, _) = &mut self;
         let delegate = SubRecognizerBridge::new(*rec);
         key.write_into(delegate)?;
         if let Some(Err(e)) = rec.feed_event(ReadEvent::Slot) {
@@ -420,7 +430,7 @@ impl<'a, R: Recognizer> BodyWriter for SubRecognizerBridge<'a, R> {
     }
 
     fn done(self) -> Result<Self::Repr, Self::Error> {
-        let SubRecognizerBridge(rec) = self;
+        let SubRecognizerBridge(rec, _) = self;
         match rec.feed_event(ReadEvent::EndRecord) {
             Some(Err(e)) => Err(e),
             _ => Ok(()),
